@@ -90,6 +90,19 @@ func c16Shapes() []c16Shape {
 		mk("5-blocks/subset-every-2", 7, 5, 1, 2, false),
 		mk("8-blocks", 3, 8, 0, 0, false),
 	}
+	// a block whose DAG has more objects than the accumulator's initial child buffer (5000): 3 entries
+	// with 1700 transactions each, between two small blocks
+	big := mk("3-blocks/middle-one-with-5100-txs", 13, 3, 0, 0, false)
+	var es [][]cargen.TxShape
+	for e := 0; e < 3; e++ {
+		ts := make([]cargen.TxShape, 1700)
+		for k := range ts {
+			ts[k] = cargen.TxShape{Accounts: []int{k % 3}, NoMeta: k%2 == 0}
+		}
+		es = append(es, ts)
+	}
+	big.Shape.Blocks[1].Entries = es
+	out = append(out, big)
 	if vkit.Thorough() {
 		out = append(out,
 			mk("4-blocks/from-3", 2, 4, 3, 0, false),
